@@ -51,28 +51,28 @@ CLAIMS = {
          'For every handshake string and every suite both backends support, transcripts (handshake, hashes, transport incl. rekey, stateless) of all 9 backend assignments are byte-identical and interoperate; the complete (kind, choice, availability) table of FallbackResolver is enumerated with tagged resolvers.', TB_API, 'DESIGN.md 3 C20'),
 }
 
-# what the strengthening passes (DESIGN.md 8.6-8.12) added on top of the original claim texts
+# what the strengthening passes (DESIGN.md 8.6-8.13) added on top of the original claim texts
 ADDENDA = {
- 'C01': 'Also: PSKs supplied late / twice / replaced / in stray slots, all-zero and all-ones PSKs, transport counters started just below 2^8..2^64, shaped keys (public keys / DH outputs with leading or trailing zero bytes), and the initiator\'s first message for ARBITRARY 32-byte pre-shared responder keys (twist points, non-canonical encodings). Seventh pass: the peer\'s true static key pinned although transmitted; write buffers of several capacities.',
- 'C02': 'Also: sessions of 66 000 transport messages, DH outputs with leading/trailing zero bytes, PSKs supplied by set_psk on one side only or on both, all-zero / all-ones PSKs. Seventh pass: the peer\'s true static key pinned although transmitted.',
- 'C03': 'Also: ring backends, exact-size read buffers, block swaps, related ephemerals, sessions with the same static keys, the same alterations on messages with large payloads (1000 .. 4 KiB .. 32 KiB .. the maximum); thorough adds the libFuzzer target hs_alter (XOR masks / cuts / extensions over the genuine message under the same oracle). Seventh pass: read buffers of exactly the honest payload size.',
- 'C04': 'Also: forged deliveries into too-small and empty buffers, repeated forgeries, sessions with the same static keys, counters near 2^8..2^64, a payload length ladder up to 65519, all-zero messages; thorough adds the libFuzzer target tr_forge. Seventh pass: the receiver repositioned (set_receiving_nonce) to another message number and then given the genuine message.',
- 'C05': 'Also: counter bases near every boundary, explicit receiving-nonce changes back and ahead inside the exhaustive alphabet, 600-message in-order runs with bursts of up to 260 consecutive rejected deliveries. Seventh pass: receivers placed k*2^32 ahead of a sent message; read buffer capacities.',
+ 'C01': 'Also: PSKs supplied late / twice / replaced / in stray slots, all-zero and all-ones PSKs, transport counters started just below 2^8..2^64, shaped keys (public keys / DH outputs with leading or trailing zero bytes), and the initiator\'s first message for ARBITRARY 32-byte pre-shared responder keys (twist points, non-canonical encodings). Seventh pass: the peer\'s true static key pinned although transmitted; write buffers of several capacities. Eighth pass: REKEY before some transport messages; dangerously_get_raw_split() compared with the reference Split().',
+ 'C02': 'Also: sessions of 66 000 transport messages, DH outputs with leading/trailing zero bytes, PSKs supplied by set_psk on one side only or on both, all-zero / all-ones PSKs. Seventh pass: the peer\'s true static key pinned although transmitted. Eighth pass: the hfs/Kyber sessions also run in the quick tier (second process, hfs build).',
+ 'C03': 'Also: ring backends, exact-size read buffers, block swaps, related ephemerals, sessions with the same static keys, the same alterations on messages with large payloads (1000 .. 4 KiB .. 32 KiB .. the maximum); thorough adds the libFuzzer target hs_alter (XOR masks / cuts / extensions over the genuine message under the same oracle). Seventh pass: read buffers of exactly the honest payload size. Eighth pass: empty read buffers.',
+ 'C04': 'Also: forged deliveries into too-small and empty buffers, repeated forgeries, sessions with the same static keys, counters near 2^8..2^64, a payload length ladder up to 65519, all-zero messages; thorough adds the libFuzzer target tr_forge. Seventh pass: the receiver repositioned (set_receiving_nonce) to another message number and then given the genuine message. Eighth pass: session histories with a one-sided manual rekey before the forgery.',
+ 'C05': 'Also: counter bases near every boundary, explicit receiving-nonce changes back and ahead inside the exhaustive alphabet, 600-message in-order runs with bursts of up to 260 consecutive rejected deliveries. Seventh pass: receivers placed k*2^32 ahead of a sent message; read buffer capacities. Eighth pass: set_receiving_nonce on the writer during long runs.',
  'C06': 'Also: writes at the reserved nonce, set_receiving_nonce and genuine deliveries inside the histories (incl. the send-only side of one-way patterns). Seventh pass: the sending counter moved forward to 2^64-1-k inside the histories.',
  'C07': 'Also: failing set_psk, calls after the last message, fault pairs and scattered faults, stateless endings, an unneeded remote key supplied up front, an invalid (but correctly encrypted) static key from a key-holding peer, and a random source that yields different bytes while an injected failing call runs. Seventh pass: calls refused at 2^64-1 (counter moved there and back) as a failure cause.',
- 'C08': 'Also: prologues beyond 64 KiB differing in the last byte, trailing zeros, and a pre-shared static key with one bit changed (X25519: bit 255, another encoding of the same point).',
+ 'C08': 'Also: prologues beyond 64 KiB differing in the last byte, trailing zeros, and a pre-shared static key with one bit changed (X25519: bit 255, another encoding of the same point). Eighth pass: the negated P-256 key (same ECDH outputs) as a disagreement.',
  'C09': 'Also: manual rekeys, counters started 2 below every power of two, 300-message runs, 70/300/1000 consecutive failing reads and writes, deliveries longer than 65535 bytes or shorter than a tag. Seventh pass: payload lengths 0..5000.',
- 'C10': 'Also: dense length sweeps with exact-size buffers on both backends up to 65535, every parsed name built with all keys and ten PSKs supplied, names with up to 5000 modifiers and every psk index 0..300. Seventh pass: set_psk locations and nonce arguments at 22 boundary values up to usize::MAX.',
- 'C11': 'Also: transport continuations with manual and automatic rekeys; ephemerals drawn from a random source that yields other bytes during calls the model expects to fail.',
+ 'C10': 'Also: dense length sweeps with exact-size buffers on both backends up to 65535, every parsed name built with all keys and ten PSKs supplied, names with up to 5000 modifiers and every psk index 0..300. Seventh pass: set_psk locations and nonce arguments at 22 boundary values up to usize::MAX. Eighth pass: Debug formatting of every session object and the raw Split() query after every operation.',
+ 'C11': 'Also: transport continuations with manual and automatic rekeys; ephemerals drawn from a random source that yields other bytes during calls the model expects to fail. Eighth pass: a psk modifier at every position of every pattern (quick tier too); suite and key material rotate with the case.',
  'C12': 'Also: ordered pairs / triples of psk modifiers, indices 10..255, all-zero / all-ones PSK values. Seventh pass: the key-subset table on every single-psk variant with the PSK supplied or left for set_psk.',
- 'C13': 'Also: every ordered pair over psk0..psk257, duplicate-free modifier lists of every length up to 257 (names up to 1700 bytes), token-level edits (duplicate / delete / swap / replace / insert over a 34-word vocabulary), double edits. Seventh pass: every Unicode code point class up to U+FFFF inside psk indices, pattern and primitive names.',
- 'C14': 'Also: dense payload/length sweeps to 65535 on both backends with exact buffers, and valid ciphertexts LONGER than 65535 bytes sealed with the reference cipher under the session keys (must be refused; the 65535-byte control is accepted). Seventh pass: PSKs in unused slots (also on names without psk modifier).',
- 'C15': 'Also: one-way configurations, counter jumps, a 10-key manual pool (shared prefixes, the session\'s initial keys, all-zero / constant-fill / s||s keys). Seventh pass: rekeys issued while counters stand at 13 values incl. 2^64-1 and back.',
- 'C16': 'Also: payloads up to 65519 under concurrency, thousands of rejected reads between accepted ones, manual rekey variants (both keys in one call, one direction per call, automatic then manual) applied alike to stateless objects and stateful twins. Seventh pass: read buffer capacities.',
- 'C17': 'Also: pre-shared keys supplied without their trailing zero bytes, reads that fail for a missing PSK after the static-key field was processed (with and without an extra supplied key). Seventh pass: writes that fail for lack of room.',
- 'C18': 'Also: hasher objects reused with pending input, associated-data and plaintext ladders up to 65535, low-order X25519 inputs (either standard behaviour accepted).',
- 'C19': 'Also: the handshake static-key field as the secret, messages cut inside the payload field, repeated deliveries, rekeys first, output buffers 0..5 bytes short / larger than 65535, plaintext lengths at multiples of 4 KiB, large message numbers, position-aligned fragments of 6 bytes.',
- 'C20': 'Also: read buffers with slack, a transport length ladder, manual keys / automatic rekey / the same manual keys again, and nested fallback resolvers over all 16^3 availability vectors.',
+ 'C13': 'Also: every ordered pair over psk0..psk257, duplicate-free modifier lists of every length up to 257 (names up to 1700 bytes), token-level edits (duplicate / delete / swap / replace / insert over a 34-word vocabulary), double edits. Seventh pass: every Unicode code point class up to U+FFFF inside psk indices, pattern and primitive names. Eighth pass: the name must be preserved verbatim also for accepted forms whose acceptance is not judged; hfs product in the quick tier.',
+ 'C14': 'Also: dense payload/length sweeps to 65535 on both backends with exact buffers, and valid ciphertexts LONGER than 65535 bytes sealed with the reference cipher under the session keys (must be refused; the 65535-byte control is accepted). Seventh pass: PSKs in unused slots (also on names without psk modifier). Eighth pass: names with the 448 DH choice over a custom resolver with 56-byte keys.',
+ 'C15': 'Also: one-way configurations, counter jumps, a 10-key manual pool (shared prefixes, the session\'s initial keys, all-zero / constant-fill / s||s keys). Seventh pass: rekeys issued while counters stand at 13 values incl. 2^64-1 and back. Eighth pass: a pass-through cipher wrapper that relies on the Cipher trait\'s provided rekey.',
+ 'C16': 'Also: payloads up to 65519 under concurrency, thousands of rejected reads between accepted ones, manual rekey variants (both keys in one call, one direction per call, automatic then manual) applied alike to stateless objects and stateful twins. Seventh pass: read buffer capacities. Eighth pass: application-supplied ciphers (pass-through, and one overriding Cipher::rekey).',
+ 'C17': 'Also: pre-shared keys supplied without their trailing zero bytes, reads that fail for a missing PSK after the static-key field was processed (with and without an extra supplied key). Seventh pass: writes that fail for lack of room. Eighth pass: dangerously_get_raw_split() as a query before conversion.',
+ 'C18': 'Also: hasher objects reused with pending input, associated-data and plaintext ladders up to 65535, low-order X25519 inputs (either standard behaviour accepted). Eighth pass: Builder::generate_keypair for both DH functions and backends.',
+ 'C19': 'Also: the handshake static-key field as the secret, messages cut inside the payload field, repeated deliveries, rekeys first, output buffers 0..5 bytes short / larger than 65535, plaintext lengths at multiples of 4 KiB, large message numbers, position-aligned fragments of 6 bytes. Eighth pass: handshake payloads of deferred patterns (payload not the first ciphertext under its key).',
+ 'C20': 'Also: read buffers with slack, a transport length ladder, manual keys / automatic rekey / the same manual keys again, and nested fallback resolvers over all 16^3 availability vectors. Eighth pass: all 24 suites (ring provides only part of them) through the nine backend assignments.',
 }
 
 NOT_YET = 'check not built yet in this phase (planned, see DESIGN.md 3.22)'
